@@ -7,6 +7,7 @@ package work
 import (
 	"fmt"
 	"sort"
+	"strings"
 	"time"
 
 	"verifsim/core"
@@ -122,4 +123,17 @@ func SerialInSim(e *Env, f func()) (panicked bool, msg string, abort string) {
 	sim.Spawn(func(int) { f() })
 	sim.Run()
 	return panicked, msg, sim.AbortClass
+}
+
+// Deep reports whether this build also has statement yields inside curve/*.go (variants instrc*): an operation
+// then yields tens of thousands of times, and workloads scale their yield estimates and use rt.Config.Dense.
+func (e *Env) Deep() bool { return strings.HasPrefix(e.Variant, "instrc") }
+
+// SimConfig builds the scheduler configuration of a concurrent phase: est and max are the workload's figures for
+// the protocol-level overlay; on a deep build both are scaled by the cost of the group arithmetic underneath.
+func (e *Env) SimConfig(draw func(n int) int, est int, max uint64) rt.Config {
+	if e.Deep() {
+		return rt.Config{Draw: draw, EstYields: est * 80, MaxYields: max * 400, Dense: true}
+	}
+	return rt.Config{Draw: draw, EstYields: est, MaxYields: max}
 }
